@@ -118,16 +118,21 @@ def run_canary(unit, workdir):
     fnres = {}
     for mod in out.get('times-ms', {}).get('smt', {}).get('smt-run-module-times', []):
         for fb in mod.get('function-breakdown', []):
-            fnres[fb['function'].split('::')[-1]] = fb.get('success', False)
+            # several impls may define a function of the same name: keep every result
+            fnres.setdefault(fb['function'].split('::')[-1], []).append((fb['function'], fb.get('success', False)))
     if not fnres:
         return None, 'canary: verus gave no per-function results: ' + p.stderr[-800:], 0
     vacuous = []
     n = 0
-    for name in ex.canaries:
-        if name in fnres:
-            n += 1
-            if fnres[name]:
-                vacuous.append(name)
+    for name in sorted(set(ex.canaries)):
+        want = ex.canaries.count(name)
+        got = fnres.get(name, [])
+        n += len(got)
+        if len(got) < want:
+            vacuous.append('%s (only %d of %d canary copies were checked)' % (name, len(got), want))
+        for (full, ok) in got:
+            if ok:
+                vacuous.append(full)
     if vacuous:
         return False, 'functions that verify `ensures false` (vacuous contract): ' + ', '.join(vacuous), n
     return True, '', n
@@ -220,7 +225,7 @@ def main(argv=None):
             if tier == 'thorough':
                 for k in range(3):
                     futs[pool.submit(verus_run.run_unit, u + '__seed%d' % k, os.path.join('units', u + '.vrs'), workdir,
-                                     None, None, ('-V', 'smt-option', '-V', 'smt.random_seed=%d' % (seed * 7 + k + 1)))] = ('seed', u, k)
+                                     None, None, ('--smt-option', 'smt.random_seed=%d' % (seed * 7 + k + 1)))] = ('seed', u, k)
                 futs[pool.submit(verus_run.run_unit, u + '__halfrlimit', os.path.join('units', u + '.vrs'), workdir,
                                  None, 5)] = ('half', u)
         stability = {}
@@ -257,7 +262,7 @@ def main(argv=None):
     kani_specs = [k for k in P.get('kani', []) if (k.get('tier', 'quick') == 'quick' or tier == 'thorough')]
     kani_results = {}
     kani_cmd = ''
-    need_scratch = (kani_specs or failures) and not args.no_kani
+    need_scratch = (kani_specs or failures or (undecided and P.get('fallback_kani'))) and not args.no_kani
     scratch = None
     try:
         if need_scratch:
@@ -294,6 +299,41 @@ def main(argv=None):
                     failures.append({'obligation': ob, 'fn': k['harness'], 'kind': 'kani', 'message': '; '.join(r.failed_checks),
                                      'rendered': r.log[-3000:], 'label': None, 'safety': True, 'at': k['module'],
                                      'unit': 'kani', '_payload': payload})
+
+        # ------------------------------------------------------------ fallback when a proof cannot be replayed
+        # A unit that is undecided because the code changed shape (lost anchor, ghost text no
+        # longer type-checks) says nothing about the property.  Bounded Kani stand-ins on the
+        # REAL code do not depend on the code's shape: a failing one is a violation with a
+        # concrete input; a passing one leaves the check undecided (bounded, never proof).
+        fb = [k for k in P.get('fallback_kani', []) if k['harness'] not in kani_results]
+        if undecided and fb and not args.no_kani:
+            if scratch is None:
+                try:
+                    scratch = kani_run.Scratch(pid).__enter__()
+                except Exception as e:
+                    undecided.append('kani scratch: %s' % e)
+            if scratch:
+                res, kcmd, raw = kani_run.run_harnesses(scratch, [k['harness'] for k in fb], playback=True,
+                                                     timeout=P.get('kani_timeout', 3000))
+                for k in fb:
+                    r = res[k['harness']]
+                    log('[kani ] fallback  %-40s %-9s %.1fs' % (k['harness'], r.status, r.time_s))
+                    kani_results[k['harness']] = r
+                    kani_specs.append(dict(k, kind='bounded'))
+                    if r.status == 'failed':
+                        ob = 'kani.%s' % k['harness']
+                        payload = {'property_id': pid, 'obligation': ob, 'violation': True,
+                                   'verifier_output': 'Kani (bounded stand-in, run because the Verus proof could not be replayed: %s): %s'
+                                                      % ('; '.join(undecided)[:600], '; '.join(r.failed_checks)),
+                                   'counterexample': None}
+                        if r.playback_test:
+                            rep, out = kani_run.playback(scratch, k['module'], r.playback_test)
+                            payload['counterexample'] = {'harness': k['harness'], 'module': k['module'],
+                                                         'playback_test': r.playback_test,
+                                                         'reproduced_on_real_code': rep, 'playback_output': out}
+                        failures.append({'obligation': ob, 'fn': k['harness'], 'kind': 'kani', 'message': '; '.join(r.failed_checks),
+                                         'rendered': r.log[-3000:], 'label': None, 'safety': True, 'at': k['module'],
+                                         'unit': 'kani', '_payload': payload})
 
         # ------------------------------------------------------------ classify failures
         for fl in failures:
@@ -376,10 +416,10 @@ def build_evidence(pid, P, tier, seed, wall, units, unit_results, canary_results
         smt_ms += r.smt_ms
         if r.cmd:
             verus_cmds.append(r.cmd)
+        # Verus's own counters: one obligation per function/proof body it checked
+        obligations += r.verified + r.errors
+        discharged += r.verified
         for name, fr in sorted(r.functions.items()):
-            obligations += 1
-            if fr['success']:
-                discharged += 1
             if len(samples) < 40:
                 samples.append({'obligation': 'verus:' + name, 'success': fr['success'],
                                 'time_us': fr['time_us'], 'rlimit': fr['rlimit']})
